@@ -8,8 +8,10 @@ CONSTANTS MaxN,        \* largest atom count explored
           Depth,       \* maximum number of calls per behaviour
           Rich         \* TRUE: the large index / argument universe (thorough tier)
 
-VARIABLES n, B, cmax, oc, out
-vars == <<n, B, cmax, oc, out>>
+VARIABLES n, B, cmax, oc, out,
+          fin          \* TRUE after a comparison: it is an observation that ends the explored history
+                       \* (its result holds the compared list, so every comparison is a state of its own)
+vars == <<n, B, cmax, oc, out, fin>>
 Cur == [n |-> n, B |-> B, cmax |-> cmax]
 
 IdxRange(k) == (-k-2)..(k+1)          \* includes two out-of-range values on each side
@@ -24,6 +26,19 @@ ConstructArgs ==
        {<<r1>> : r1 \in {<<0,1,1>>, <<1,0,5>>, <<-1,0,0>>, <<0,2,1>>, <<-3,-1,5>>, <<-4,0,1>>, <<0,3,1>>}} \cup
        {<<r1, r2>> : r1 \in {<<0,1,1>>, <<1,0,5>>, <<1,2,0>>}, r2 \in {<<1,0,5>>, <<0,1,0>>, <<-1,-2,1>>, <<2,0,5>>, <<0,-3,1>>}} \cup
        {<<<<0,1,1>>, <<1,2,5>>, <<2,0,0>>>>, <<<<1,0,0>>, <<0,1,1>>, <<-2,-3,5>>>>}}
+
+\* lists and objects the current list is compared with (see BondListOps "equality"): its own
+\* one-aspect variants and the small operand lists
+ObjCodes == 0..5
+EqArgs(maxN, Ts) ==
+       {<<"same", <<>>>>, <<"rev", <<>>>>}
+  \cup {<<"natoms", <<d>>>> : d \in {-2, -1, 1, 2}}
+  \cup {<<"retype", <<k, t>>>> : k \in 1..((maxN * (maxN - 1)) \div 2), t \in Ts}
+  \cup {<<"drop", <<k>>>> : k \in 1..((maxN * (maxN - 1)) \div 2)}
+  \cup {<<"dup", <<k, t>>>> : k \in 1..((maxN * (maxN - 1)) \div 2), t \in Ts}
+  \cup {<<"extra", <<i, j, t>>>> : i \in 0..(maxN - 2), j \in 1..(maxN - 1), t \in Ts}
+  \cup {<<"obj", <<o>>>> : o \in ObjCodes}
+  \cup {<<"list", o>> : o \in Operands}
 
 DistinctWrapped(i, j, k) == ~(InRange(i, k) /\ InRange(j, k) /\ WrapOne(i, k) = WrapOne(j, k))
 
@@ -46,6 +61,7 @@ Calls(S) ==
   \cup {<<"independent", <<"copy", <<>>>>>>}
   \cup {<<"get_bonds", <<i>>>> : i \in IdxRange(S.n)}
   \cup {<<"contains", <<i, j>>>> : i \in 0..(S.n-1), j \in 0..(S.n-1)}
+  \cup {<<"eq", a>> : a \in EqArgs(MaxN, T)}
   \cup {<<"index", <<x>>>> : x \in IntIdx(IdxRange(S.n))
                               \cup (IF Rich THEN SliceIdx({-4,-1,0,1,2,5}, {-4,-2,0,1,3,5}, {-2,-1,1,2,0})
                                            ELSE SliceIdx({-4,-1,1}, {-2,0,2,5}, {-2,-1,2,0}))
@@ -60,18 +76,20 @@ InDomain(S, c) ==
   /\ (c[1] = "construct" =>
         \A k \in DOMAIN c[2][2] : DistinctWrapped(c[2][2][k][1], c[2][2][k][2], c[2][1]))
   /\ (c[1] = "contains" => c[2][1] # c[2][2])
+  /\ (c[1] = "eq" => Dom_EqArg(S, c[2]))
 
 Do(op, a) ==
   LET r == Apply(Cur, op, a) IN
   /\ InDomain(Cur, <<op, a>>)
   /\ r.n <= MaxN
   /\ n' = r.n /\ B' = r.B /\ cmax' = r.cmax /\ oc' = r.oc /\ out' = r.out
+  /\ fin' = (op = "eq")
 
-Init == n = 0 /\ B = {} /\ cmax = 0 /\ oc = "ok" /\ out = <<>>
+Init == n = 0 /\ B = {} /\ cmax = 0 /\ oc = "ok" /\ out = <<>> /\ fin = FALSE
 \* constant call universe, tagged with the atom count it applies to, so that TLC splits Next
 \* into one labelled sub-action per call (labels are read back from the dot dump)
 AllCalls == UNION {{<<k, c[1], c[2]>> : c \in Calls([n |-> k])} : k \in 0..MaxN}
-Call(c) == c[1] = n /\ Do(c[2], c[3])
+Call(c) == ~fin /\ c[1] = n /\ Do(c[2], c[3])
 Next == \E c \in AllCalls : Call(c)
 Spec == Init /\ [][Next]_vars
 
@@ -88,4 +106,11 @@ InvViewsSymmetric == \A i, j \in 0..(n-1) : (<<j, TypeAt(B,i,j)>> \in Neighbours
 \* merge precedence and construct-first-wins are checked as ASSUMEs on the operators
 ASSUME Merge({<<0,1,1>>, <<1,2,1>>}, {<<1,2,2>>, <<2,3,2>>}) = {<<0,1,1>>, <<1,2,2>>, <<2,3,2>>}
 ASSUME ConstructSet(<<<<1,0,5>>, <<0,1,1>>, <<-1,0,2>>>>, 3) = {<<0,1,5>>, <<0,2,2>>}
+\* equality: atom count and mapping, whatever the rows look like
+ASSUME LET S == [n |-> 3, B |-> {<<0,1,5>>, <<0,2,2>>}, cmax |-> 2] IN
+       /\ Apply(S, "eq", <<"list", <<3, <<<<-1,0,2>>, <<1,0,5>>, <<0,1,1>>>>>>>>).out.eq
+       /\ ~Apply(S, "eq", <<"list", <<4, <<<<0,1,5>>, <<0,2,2>>>>>>>>).out.eq
+       /\ ~Apply(S, "eq", <<"list", <<3, <<<<0,1,5>>, <<0,2,1>>>>>>>>).out.eq
+       /\ Apply(S, "eq", <<"rev", <<>>>>).out = [other |-> <<3, <<<<-1,0,2>>, <<-2,0,5>>>>>>, eq |-> TRUE]
+       /\ ~Apply(S, "eq", <<"natoms", <<1>>>>).out.eq
 =============================================================================
